@@ -43,7 +43,7 @@ def run_with_plan(inputs, plan=None, grace=0.0):
         if act == "raise":
             raise RuntimeError("injected fault")
         if act == "timeout":
-            time.sleep(2.6)
+            time.sleep(5.0)    # well past the 2 s thread wait: the worker thread keeps running while later jobs are served
         r = o_fit(reaction_dict, **kw)
         if act == "uncertain":
             return r[0], r[1], list(r[2]) + [None], r[3]
@@ -71,7 +71,7 @@ def run_with_plan(inputs, plan=None, grace=0.0):
         if act == "raise":
             raise RuntimeError("injected fault")
         if act == "timeout":
-            time.sleep(2.6)
+            time.sleep(5.0)    # well past the 2 s thread wait: the worker thread keeps running while later jobs are served
         return o_fg(mol_list, mcs_list, *a, **kw)
     patch(FG, "find_missing_parts_pairs", staticmethod(fg))
     o_find = MCSSearch.find
